@@ -37,8 +37,9 @@ type sFactory struct {
 	nFault int // faults taken so far
 	maxF   int // budget of faults on one path
 	// observation
-	puts int
-	log  []string
+	puts     int
+	log      []string
+	onPutPos func(p *meta.TaskCollectionPosition) // called for every checkpoint write that reaches the store
 }
 
 func newSFactory() *sFactory { return &sFactory{txnOps: map[any][]sTxnOp{}, maxF: 1} }
@@ -200,6 +201,9 @@ func (s *sPosStore) Put(ctx context.Context, m *meta.TaskCollectionPosition, txn
 		return errStore
 	}
 	s.f.puts++
+	if s.f.onPutPos != nil {
+		s.f.onPutPos(m)
+	}
 	return s.f.do(sTxnOp{kind: "put-pos", pos: sCopyPos(m)}, txn)
 }
 func (s *sPosStore) Get(ctx context.Context, q *meta.TaskCollectionPosition, txn any) ([]*meta.TaskCollectionPosition, error) {
